@@ -215,6 +215,11 @@ func (m *chainMachine) bDeployCreate(t *rapid.T) (cmBuilt, bool) {
 		dep = m.params.depMin - 1
 	case 1, 2, 3:
 		dep = m.params.depMin + int64(rapid.IntRange(1, 60).Draw(t, "extra"))*maxI64(1, m.params.depMin/50)
+	case 4:
+		// more than the tenant owns: the bank refuses the transfer into escrow
+		if b, ok := m.snap.bank[ten.bech]; ok && b.IsInt64() {
+			dep = b.Int64() + 1
+		}
 	}
 	msg := &dtypes.MsgCreateDeployment{ID: id, Groups: groups, Version: cmVersion(rapid.IntRange(0, 200).Draw(t, "ver")), Deposit: cmCoin(dep)}
 	return cmBuilt{fmt.Sprintf("CreateDeployment(%s/%d,groups=%d,deposit=%d,prices=%s)", ten.name, dseq, ng, dep, cmGroupPrices(groups)), msg, ten}, true
